@@ -517,6 +517,32 @@ func (e *daemonEngine) forge(n *dNode, st DKGStep, curEpoch uint32, members []in
 		g.Metadata = &pdkg.GossipMetadata{BeaconID: id, Address: claimed, Signature: sig}
 	}
 	switch st.S {
+	case "proposal_with_shadow_joiner":
+		// a resharing proposal in the leader's name that keeps every member with its true key and adds, among the
+		// joiners, an entry carrying the leader's address with the attacker's key; signed with that key
+		lead := -1
+		for _, i := range members {
+			if i != n.idx {
+				lead = i
+				break
+			}
+		}
+		if lead < 0 {
+			return nil, false, false
+		}
+		ordered := []int{lead}
+		for _, i := range members {
+			if i != lead {
+				ordered = append(ordered, i)
+			}
+		}
+		terms := e.reshareTerms(curEpoch+1, ordered, future, cc.epochs[len(cc.epochs)-1].group.Threshold)
+		kp, _ := seededPair(e.nodes[lead].addr, cc.sch, H64(e.sc.Seed, "shadow", st.A))
+		ap, _ := participantOf(kp)
+		terms.Joining = append(terms.Joining, ap)
+		g := &pdkg.GossipPacket{Packet: &pdkg.GossipPacket_Proposal{Proposal: terms}}
+		sign(kp, g, terms, e.nodes[lead].addr)
+		return e.sendGossip(n, g, "forge-"+st.S), true, true
 	case "proposal_by_attacker_key", "proposal_by_other_member_key":
 		// a resharing proposal in the leader's name. Signed either with a fresh key that is also
 		// written into the participant lists under the leader's address, or with another member's key.
